@@ -4,7 +4,11 @@ import json, os, subprocess
 ROOT = os.path.dirname(os.path.dirname(os.path.abspath(__file__)))
 props = [json.loads(l) for l in open(os.path.join(ROOT, 'properties.jsonl'))]
 
-COMMON_NOTE = ('Trusted base: CPython ast; the hand-built CFG / reaching-definitions / resolver in /verif/fjsa; '
+COMMON_NOTE = ('Sources are analysed in a canonical form (fjsa/canon.py: single-use temporaries inlined, positive guards, < / <= comparisons, '
+               'conventional import aliases, x += e, positional prefix, early-exit instead of else) so that behaviour-preserving rewrites do '
+               'not change a verdict. The thorough tier adds self-validation: the corpus mutants of the property must be reported, its '
+               'neutral twins and 12 whole-repo neutral transformations must stay silent (failure = exit 2, checker broken). '
+               'Trusted base: CPython ast; the hand-built CFG / reaching-definitions / resolver in /verif/fjsa; '
                'JAX and numpy semantics listed as assumptions in the evidence file. User-supplied callables are opaque.')
 
 CLAIMS = {
@@ -198,6 +202,32 @@ CLAIMS = {
 
 NA_REASON = {}
 
+# rules added while testing against seeded changes (DESIGN.md sections 9.5-9.7), appended to the claim text
+EXTRA = {
+ 'C01': 'Also: optimizer results flow into the returned state; the local step-count structure (shared with C04) and the pmap padding-step selection (shared with C02).',
+ 'C02': 'Also: padding values are zeros_like of their template (dtype kept); no [0]/[-1] on the client list outside the per-block loop or an emptiness guard.',
+ 'C04': 'Also: the index array has the element type of the permutation buffer (>= 32 bit); dataclass replace() forwards its overrides unfiltered; hparams built from flags take each flag value unmodified.',
+ 'C05': 'Also: the evaluation loop merges every batch (no break / skipped iteration); the average-loss evaluators end in safe_div (shared with C06).',
+ 'C06': 'Also: once the regulariser is added the value does not flow into a reduction; nobody hands a regulariser to the factory of the known finding; per-domain means use safe_div; pair sums are not modified between accumulation and normalisation.',
+ 'C07': 'Also: aggregators do not filter clients before the mean; tree_sum/tree_mean accumulate in first-copy-then-add form with owned accumulators.',
+ 'C08': 'Also: Optional bounds are tested with `is None`, never by truthiness; every query of a view runs on its own cursor.',
+ 'C09': 'Also: the temporary file is closed before it is renamed; the removal list is every checkpoint but the newest `keep`; load_state returns the unpickled object unconverted; no file of the run is opened in append mode; the round-indexed sampler rules of C13.',
+ 'C10': 'Also: state constructor / replace() arguments are not views, iterators, generators or handles (a state must pickle and be a pytree).',
+ 'C11': 'Also: a state rebuilt with .replace() gets a fresh key; tree_mean and its zero-guarded normaliser (shared with C07).',
+ 'C12': 'Also: HypCluster carries the updated optimizer state; Mime evaluates the control variate with the key of the step.',
+ 'C13': 'Also: shuffled_clients builds one RandomState(seed) unconditionally (no truthiness test of the seed) and iterates ids in sorted order.',
+ 'C14': 'Also: cross entropy takes log-probabilities from log_softmax (never log(softmax)); the confusion matrix puts one count at [target, argmax].',
+ 'C15': 'Also: the per-client cursor is assigned in every iteration before it is read (must-assign dataflow over the loop body); concat_examples appends every piece; the no-copy arm of RepeatableIterator is limited to builtin re-iterable containers.',
+ 'C16': 'Also: NumPy scalars come back through ar[()]; every INSERT of the builder is committed before the method returns; no cursor is stored on a view; load_state returns the unpickled object unconverted.',
+ 'C17': 'Also: no function of apfl.py writes into a state table it was given; the sliding window keeps its length; HypCluster leaves empty clusters untouched.',
+ 'C18': 'Also: no shortcut return in one rotation direction only; the einsum / tensordot axis schedule; no module-level caches; divisions only by shape-derived lengths.',
+ 'C19': 'Also: the download / decompress loops do not swallow read errors and require end-of-stream; a stale temporary file is removed or truncated before rebuilding.',
+ 'C20': 'Also: constants are folded at the arguments the task actually passes; the look-up table fill value is the OOV label; crop arguments are not swapped; logits are transposed (not reshaped) back to batch-major; the default vocabulary size reaches the loader unmodified.',
+}
+FORWARD_NOTE = (' Cross-cutting R-FORWARD (functions scoped per property in rules/forward.py): every parameter is read or explicitly discarded, same-named '
+                'parameters are passed on to repository callees, optional numbers are not tested by truthiness, same-named arguments are not '
+                'swapped, **kwargs are forwarded unfiltered.')
+
 def main():
   checks = []
   na = []
@@ -214,7 +244,8 @@ def main():
       'evidence_file': f'/verif/evidence/{pid}.json',
       'replay_cmd_template': f'./check {pid} --replay {{path}}',
       'engine': 'fjsa',
-      'level_claimed': {'category': 'other', 'text': c['text'], 'design_ref': c['design']},
+      'level_claimed': {'category': 'other', 'text': c['text'] + (' ' + EXTRA[pid] if pid in EXTRA else '') + FORWARD_NOTE,
+                        'design_ref': c['design'] + '; sections 9.5-9.7'},
       'level_note': c.get('note', '') + ('' if not c.get('note') else ' ') + COMMON_NOTE,
       'technique': c['technique'],
     })
